@@ -49,7 +49,7 @@ def run(pid, tier, seed, extra_model=None):
         cov["generator"][f] = {"schedules": len(ss), "tlc_states_generated": r["generated"]}
     import directed
     if pid == "C01":
-        scheds += directed.c01_family(tier)
+        scheds += directed.c01_family(tier) + directed.c01_window_memory_family(tier)
     if pid == "C03":
         scheds += directed.c03_family(tier) + directed.c01_family(tier)[::3]
     if pid == "C06":
